@@ -936,11 +936,27 @@ def m_int(eng, args, kwargs, st, node):
     raise Undecided('int(%r)' % (v,), node)
 
 
+@func(sorted)
+def m_sorted(eng, args, kwargs, st, node):
+    v = args[0]
+    items = eng.concrete_items(v, st)
+    if items is not None and not items:
+        return [(st.alloc(HPyList([])), st)]
+    seq, elem = eng.seq_of(v, st)
+    eng.trusted_used.add('builtin:sorted (a permutation: only the length is used)')
+    r = eng.ctx.fresh('sorted', seq.sort)
+    st.assume(Eq(Len(r), Len(seq)))
+    return [(st.alloc(HList(r, elem)), st)]
+
+
 @func(list)
 def m_list(eng, args, kwargs, st, node):
     if not args:
         return [(st.alloc(HPyList([])), st)]
     v = args[0]
+    from .executor import VRecList
+    if isinstance(v, VRecList):
+        return [(v, st)]        # a record list is immutable in the engine: list(xs) is xs
     items = eng.concrete_items(v, st)
     if items is not None:
         return [(st.alloc(HPyList(items)), st)]
